@@ -67,6 +67,31 @@ pub const GIF: bool = cfg!(feature = "gif");
 pub const LB: bool = cfg!(feature = "lb");
 pub const TPP: bool = cfg!(feature = "tpp");
 
+thread_local! {
+    /// C16: restrict every generator to the members that exist in every feature configuration
+    static COMMON_ONLY: std::cell::Cell<bool> = const { std::cell::Cell::new(false) };
+}
+pub fn set_common_only(b: bool) {
+    COMMON_ONLY.with(|c| c.set(b));
+}
+fn common_only() -> bool {
+    COMMON_ONLY.with(|c| c.get())
+}
+/// feature switches as seen by the generators
+pub fn gif() -> bool {
+    GIF && !common_only()
+}
+pub fn tpp() -> bool {
+    TPP && !common_only()
+}
+pub fn lb_cap() -> usize {
+    if LB && !common_only() {
+        3008
+    } else {
+        0
+    }
+}
+
 #[derive(Default, Clone, Debug)]
 pub struct RInfo {
     pub present: u32,
@@ -155,7 +180,7 @@ pub const CERT_KEYS: [&str; 6] =
 pub fn optional_option_keys() -> Vec<&'static str> {
     OPTION_KEYS
         .iter()
-        .filter(|(_, full, always)| !*always && (GIF || !*full))
+        .filter(|(_, full, always)| !*always && (gif() || !*full))
         .map(|(k, _, _)| *k)
         .collect()
 }
@@ -186,7 +211,7 @@ pub fn getinfo_optional() -> Vec<(i64, GiKind)> {
         (0x0A, GiKind::Algorithms),
         (0x0B, GiKind::Uint),
     ];
-    if GIF {
+    if gif() {
         v.extend_from_slice(&[
             (0x0C, GiKind::Bool),
             (0x0D, GiKind::Uint),
@@ -230,7 +255,7 @@ pub fn gen_options_map(src: &mut Src, info: &mut RInfo, presence: &[bool]) -> Va
     for (k, full, always) in OPTION_KEYS.iter() {
         if *always {
             m.push(ks(k, Value::Bool(src.bool())));
-        } else if GIF || !*full {
+        } else if gif() || !*full {
             let p = presence.get(i).copied().unwrap_or(false);
             i += 1;
             if info.opt(p) {
@@ -493,7 +518,7 @@ pub fn gen_cp_resp(src: &mut Src, info: &mut RInfo) -> Value {
 }
 
 pub fn cm_opt() -> usize {
-    if TPP {
+    if tpp() {
         12
     } else {
         11
@@ -543,7 +568,7 @@ pub fn gen_cm_resp(src: &mut Src, info: &mut RInfo) -> Value {
     if info.opt(p[10]) {
         m.push(kv(11, gen_bytes32(src)));
     }
-    if TPP && info.opt(p[11]) {
+    if tpp() && info.opt(p[11]) {
         m.push(kv(12, Value::Bool(src.bool())));
     }
     Value::Map(m)
@@ -556,7 +581,7 @@ pub fn gen_lb_resp(src: &mut Src, info: &mut RInfo) -> Value {
     let p = src.bool();
     let mut m = vec![];
     if info.opt(p) {
-        m.push(kv(1, bytes_cap(src, LARGE_BLOB_CAP)));
+        m.push(kv(1, bytes_cap(src, lb_cap())));
     }
     Value::Map(m)
 }
